@@ -17,6 +17,7 @@ import (
 	"verifharness/internal/c17"
 	"verifharness/internal/c19"
 	"verifharness/internal/c20"
+	"verifharness/internal/ingestapi"
 	"verifharness/internal/pc"
 	"verifharness/internal/pubapi"
 	"verifharness/internal/rcv"
@@ -45,6 +46,7 @@ var commands = map[string]func(args []string) *rep.Report{
 	"c09": rcv.Run,
 	"c16": rcvgate.Run,
 	"x01": pubapi.Run,
+	"x02": ingestapi.Run,
 }
 
 func main() {
